@@ -188,8 +188,8 @@ func (w *worker[T, JobType]) releaseWaiters(processing uint32) {
 		return
 	}
 
-	// Only release waiters if worker is paused or if running with an empty queue
-	if w.IsPaused() || (w.IsRunning() && w.queues.Len() == 0) {
+	// Only release waiters if worker is paused or stopped (they wait for curProcessing only), or if running with an empty queue
+	if w.IsPaused() || w.IsStopped() || (w.IsRunning() && w.queues.Len() == 0) {
 		// Broadcast to all waiters to signal they can continue.
 		// The lock keeps the broadcast from falling between a waiter's condition check
 		// and its Wait, where it would be lost and the waiter would sleep forever.
